@@ -65,6 +65,10 @@ type gate struct {
 	broken bool
 }
 
+// stallAfter: a forced schedule that makes no progress for this long is given up (the worker loop did not
+// produce the expected event, e.g. because a transaction failed); the run continues free.
+const stallAfter = 20 * time.Second
+
 var theGate = func() *gate { g := &gate{}; g.cond = sync.NewCond(&g.mu); return g }()
 
 func (g *gate) arm(s []gev) {
@@ -111,7 +115,7 @@ func installHook() {
 		for {
 			time.Sleep(2 * time.Second)
 			theGate.mu.Lock()
-			if theGate.sched != nil && theGate.pos < len(theGate.sched) && time.Since(theGate.last) > 120*time.Second {
+			if theGate.sched != nil && theGate.pos < len(theGate.sched) && time.Since(theGate.last) > stallAfter {
 				theGate.broken = true
 				theGate.cond.Broadcast()
 			}
@@ -216,6 +220,31 @@ func process(bc *core.BlockChain, blk *types.Block, sequential bool) procOut {
 	if err != nil {
 		tl.Fatal("state: %v", err)
 	}
+	if !sequential && blk.AccessList() != nil {
+		// the state set-up of BlockChain.setupExecutionState for access-list driven execution: one shared,
+		// caching, hint-prefetching reader under the canonical state and every per-transaction state
+		db := sdb.Database()
+		base, err := db.Reader(parent.Root)
+		if err != nil {
+			tl.Fatal("reader: %v", err)
+		}
+		hint := map[common.Address][]common.Hash{}
+		for _, acc := range *blk.AccessList() {
+			var slots []common.Hash
+			for _, s := range acc.StorageReads {
+				slots = append(slots, s.Bytes32())
+			}
+			for _, ch := range acc.StorageChanges {
+				slots = append(slots, ch.Slot.Bytes32())
+			}
+			hint[acc.Address] = slots
+		}
+		reader, stop := state.NewBlockExecutionReader(base, hint, 2)
+		defer stop()
+		if sdb, err = state.NewWithReader(parent.Root, db, reader); err != nil {
+			tl.Fatal("state: %v", err)
+		}
+	}
 	res, err := core.NewStateProcessor(bc).Process(context.Background(), blk, sdb, nil, nil, vm.Config{DisableParallelExecution: sequential}, nil)
 	if err != nil {
 		return procOut{err: err}
@@ -299,46 +328,96 @@ func against(o procOut, blk *types.Block) string {
 // ---------------------------------------------------------------------------------------
 // schedules
 
-// feasible reports whether s is a legal start/completion order for n transactions on w workers.
+// pool mirrors the worker pool of ParallelExec.tla: indices are fetched in order (not observable), begin
+// executing in any order among the fetched ones ("s") and finish in any order ("d"); at most w in flight.
+type pool struct {
+	cursor  int
+	fetched map[int]bool
+	running map[int]bool
+}
+
+func newPool() *pool { return &pool{cursor: 1, fetched: map[int]bool{}, running: map[int]bool{}} }
+
+// reach: the largest index that can have been fetched now
+func (p *pool) reach(n, w int) int {
+	r := p.cursor - 1 + (w - len(p.fetched) - len(p.running))
+	if r > n {
+		r = n
+	}
+	return r
+}
+
+func (p *pool) begin(i, n, w int) bool {
+	if i > p.reach(n, w) {
+		return false
+	}
+	for p.cursor <= i {
+		p.fetched[p.cursor] = true
+		p.cursor++
+	}
+	if !p.fetched[i] {
+		return false
+	}
+	delete(p.fetched, i)
+	p.running[i] = true
+	return true
+}
+
+func (p *pool) finish(i int) bool {
+	if !p.running[i] {
+		return false
+	}
+	delete(p.running, i)
+	return true
+}
+
+// feasible reports whether s is a legal begin/completion order for n transactions on w workers.
 func feasible(s []gev, n, w int) bool {
-	cursor, running, done := 1, map[int]bool{}, 0
+	p := newPool()
 	for _, e := range s {
 		switch e.Kind {
 		case "s":
-			if e.I != cursor || len(running) >= w || cursor > n {
+			if !p.begin(e.I, n, w) {
 				return false
 			}
-			running[e.I] = true
-			cursor++
 		case "d":
-			if !running[e.I] {
+			if !p.finish(e.I) {
 				return false
 			}
-			delete(running, e.I)
-			done++
 		}
 	}
-	return done == n && cursor == n+1
+	return p.cursor == n+1 && len(p.fetched) == 0 && len(p.running) == 0
 }
 
-// randSchedule draws a feasible schedule.
+// randSchedule draws a feasible schedule, favouring late transactions running before early ones.
 func randSchedule(r *rand.Rand, n, w int) []gev {
 	var s []gev
-	cursor := 1
-	var running []int
+	p := newPool()
+	begun := map[int]bool{}
 	for len(s) < 2*n {
-		canStart := cursor <= n && len(running) < w
-		if canStart && (len(running) == 0 || r.Intn(2) == 0) {
-			s = append(s, gev{"s", cursor})
-			running = append(running, cursor)
-			cursor++
-		} else {
-			j := r.Intn(len(running))
-			if r.Intn(3) == 0 {
-				j = len(running) - 1 // favour late-started transactions finishing first
+		var cand []int
+		for i := 1; i <= p.reach(n, w); i++ {
+			if !begun[i] {
+				cand = append(cand, i)
 			}
-			s = append(s, gev{"d", running[j]})
-			running = append(running[:j], running[j+1:]...)
+		}
+		var run []int
+		for i := range p.running {
+			run = append(run, i)
+		}
+		sort.Ints(run)
+		if len(cand) > 0 && (len(run) == 0 || r.Intn(2) == 0) {
+			i := cand[len(cand)-1] // the latest index that can run now
+			if r.Intn(3) == 0 {
+				i = cand[r.Intn(len(cand))]
+			}
+			p.begin(i, n, w)
+			begun[i] = true
+			s = append(s, gev{"s", i})
+		} else {
+			i := run[r.Intn(len(run))]
+			p.finish(i)
+			s = append(s, gev{"d", i})
 		}
 	}
 	return s
@@ -348,20 +427,30 @@ type driver struct {
 	sum    *tl.Summary
 	tr     *tl.Trace
 	scheds map[string][][]gev // "n/w" -> schedules from TLC
+	stalls int
 	shapes map[string]bool
 }
 
 // parallelUnder processes blk in parallel with w workers under schedule s (nil = free running), emits the
 // observed schedule and returns the result.
 func (d *driver) parallelUnder(bc *core.BlockChain, blk *types.Block, w int, s []gev, seq procOut, label string) {
+	if s != nil && d.stalls >= 3 {
+		d.sum.Count("forced-schedule-skipped-after-stalls")
+		s = nil
+	}
 	old := runtime.GOMAXPROCS(w)
 	theGate.arm(s)
 	par := process(bc, blk, false)
 	obs := theGate.disarm()
 	runtime.GOMAXPROCS(old)
 	n := len(blk.Transactions())
-	if theGate.broken {
-		tl.Fatal("%s: schedule %v could not be realised with %d workers (observed %v)", label, s, w, obs)
+	theGate.mu.Lock()
+	stalled := theGate.broken
+	theGate.broken = false
+	theGate.mu.Unlock()
+	if stalled {
+		d.stalls++
+		d.sum.Count("forced-schedule-stalled")
 	}
 	df := diff(seq, par)
 	hd := against(par, blk)
@@ -377,7 +466,8 @@ func (d *driver) parallelUnder(bc *core.BlockChain, blk *types.Block, w int, s [
 	d.sum.Evaluations++
 	d.sum.Count(fmt.Sprintf("parallel-run/w%d", w))
 	if s != nil && fmt.Sprint(obs) != fmt.Sprint(s) {
-		d.sum.Violate(fmt.Sprintf("%s: forced schedule %v, worker loop produced %v", label, s, obs), tl.M{"label": label})
+		d.sum.Violate(fmt.Sprintf("%s: forced schedule %v (workers=%d), worker loop produced %v (stalled: %v; processing error: %v)", label, s, w, obs, stalled, par.err),
+			tl.M{"label": label, "schedule": s, "observed": obs, "workers": w})
 	}
 	if df != "" {
 		d.sum.Violate(fmt.Sprintf("%s: parallel processing (workers=%d, schedule %v) differs from sequential processing: %s", label, w, obs, df),
@@ -811,12 +901,26 @@ func (d *driver) runRandom(seed int64, nblocks, maxTx, maxMut int) {
 	}
 	defer ch.Close()
 	r := tl.Rand(seed)
-	for b := 0; b < nblocks; b++ {
-		n := 1 + r.Intn(maxTx)
-		blk, _, kinds, err := ch.ExtendRandom(r, n, blockkit.BlockOpts{Withdrawals: true})
+	scripts := k.Scripts()
+	for b := 0; b < len(scripts)+nblocks; b++ {
+		var (
+			blk   *types.Block
+			kinds []string
+			err   error
+		)
+		if b < len(scripts) {
+			blk, _, kinds, err = ch.ExtendScript(scripts[b])
+		} else {
+			nt := 1 + r.Intn(maxTx)
+			if b%3 == 0 {
+				nt = 2 + r.Intn(2) // small blocks take the TLC-generated schedules
+			}
+			blk, _, kinds, err = ch.ExtendRandom(r, nt, blockkit.BlockOpts{Withdrawals: true})
+		}
 		if err != nil {
 			tl.Fatal("generator: %v", err)
 		}
+		n := len(blk.Transactions())
 		for _, kd := range kinds {
 			d.sum.Count("tx:" + kd)
 		}
@@ -834,9 +938,13 @@ func (d *driver) runRandom(seed int64, nblocks, maxTx, maxMut int) {
 		for _, w := range []int{1, 2, 4, 16} {
 			d.parallelUnder(bc, blk, w, nil, seq, label)
 		}
-		for j := 0; j < 4; j++ {
+		for j := 0; j < 6; j++ {
 			w := 1 + r.Intn(minInt(n, 4))
-			d.parallelUnder(bc, blk, w, randSchedule(r, n, w), seq, label)
+			if all := d.scheds[fmt.Sprintf("%d/%d", n, w)]; len(all) > 0 {
+				d.parallelUnder(bc, blk, w, all[r.Intn(len(all))], seq, label) // a TLC-generated schedule
+			} else {
+				d.parallelUnder(bc, blk, w, randSchedule(r, n, w), seq, label)
+			}
 		}
 		if err := importVerdict(bc, blk); err != nil {
 			d.sum.Violate(fmt.Sprintf("%s: generated block rejected by import through the parallel processor: %v", label, err), tl.M{"label": label, "kinds": kinds})
@@ -878,8 +986,6 @@ func minInt(a, b int) int {
 	}
 	return b
 }
-
-var _ = state.New
 
 func main() {
 	mode := flag.String("mode", "random", "cases|random")
